@@ -115,6 +115,7 @@ func genSpec(rt *rapid.T, pf *profile) adapt.Spec {
 		if irange(rt, 0, 9, "presized") == 0 {
 			s.Presize = pick(rt, []int{-5, 1, 97, 200}, "presize")
 		}
+		s.GrowOnly = irange(rt, 0, 7, "growOnly") == 0
 	case "mapof":
 		s.Key = pick(rt, []string{"int", "int", "string", "struct"}, "keytype")
 		hs := pf.hashers
@@ -125,6 +126,7 @@ func genSpec(rt *rapid.T, pf *profile) adapt.Spec {
 		if irange(rt, 0, 9, "presized") == 0 {
 			s.Presize = pick(rt, []int{-5, 1, 161, 300}, "presize")
 		}
+		s.GrowOnly = irange(rt, 0, 7, "growOnly") == 0
 	case "cache", "cacheof":
 		if kind == "cacheof" {
 			s.Key = pick(rt, []string{"int", "string"}, "keytype")
